@@ -45,6 +45,11 @@ type c07Child struct {
 type c07Case struct {
 	Cfg      c07Cfg
 	Children []c07Child
+	// Ghost: an older revision (template version v<Ghost>) additionally claims a child "ghost" that only the
+	// old revisions' own view of the parent desires (spec.ghost is true there and false in the latest spec -
+	// e.g. the tail of a scale-down); GhostExists: the object is still there
+	Ghost       int
+	GhostExists bool
 }
 
 func ver(i int) string { return fmt.Sprintf("v%d", i) }
@@ -96,6 +101,9 @@ func c07Run(c c07Case) []mc.Finding {
 	}
 	mkParent := func(v int, common string) kit.M {
 		p := kit.Obj(kit.Thing, "n1", "p")
+		if c.Ghost > 0 {
+			kit.Field(p, v != cfg.LatestVer, "spec", "ghost")
+		}
 		kit.Field(p, "puid", "metadata", "uid")
 		kit.Field(p, int64(n), "spec", "replicas")
 		kit.Field(p, ver(v), "spec", "template", "ver")
@@ -143,6 +151,17 @@ func c07Run(c c07Case) []mc.Finding {
 		}
 		w.Sim.Seed(obj.Object)
 	}
+	if c.Ghost > 0 && c.GhostExists {
+		d := desired(0, c.Ghost, "c1")
+		kit.Field(d, "ghost", "metadata", "name")
+		obj := &unstructured.Unstructured{Object: runtime.DeepCopyJSON(d)}
+		if err := dynamicapply.SetLastApplied(obj, d); err != nil {
+			panic(err)
+		}
+		kit.Owners(obj.Object, kit.OwnerRef(kit.Thing, "p", "puid", true))
+		obj.Object["status"] = kit.M{"observedGeneration": int64(1), "conditions": kit.L{kit.M{"type": "Ready", "status": "True", "reason": "Good"}}}
+		w.Sim.Seed(obj.Object)
+	}
 	// ControllerRevisions as the controller itself would have written them
 	revName := map[int]string{}
 	for v := 1; v <= cfg.LatestVer; v++ {
@@ -166,6 +185,9 @@ func c07Run(c c07Case) []mc.Finding {
 				names = append(names, fmt.Sprintf("w%d", i))
 			}
 		}
+		if v == c.Ghost {
+			names = append(names, "ghost")
+		}
 		if v == cfg.LatestVer && !cfg.LatestExists {
 			continue
 		}
@@ -188,6 +210,14 @@ func c07Run(c c07Case) []mc.Finding {
 			d := desired(i, int(v[1]-'0'), cm)
 			if cfg.GenSel {
 				delete(d["metadata"].(kit.M), "labels") // the controller adds the generated label itself
+			}
+			ch = append(ch, d)
+		}
+		if g, _ := kit.Get(req, "parent", "spec", "ghost").(bool); g {
+			d := desired(0, int(v[1]-'0'), cm)
+			kit.Field(d, "ghost", "metadata", "name")
+			if cfg.GenSel {
+				delete(d["metadata"].(kit.M), "labels")
 			}
 			ch = append(ch, d)
 		}
@@ -290,6 +320,9 @@ func c07Run(c c07Case) []mc.Finding {
 			continue
 		}
 		wroteOrDeleted[r.Name] = r.Verb
+		if r.Name == "ghost" {
+			continue // judged by M6
+		}
 		if r.Verb == "create" || r.Verb == "update" {
 			av, ok := after[r.Name]
 			if !ok {
@@ -326,6 +359,20 @@ func c07Run(c c07Case) []mc.Finding {
 			if wroteOrDeleted[name] != wantVerb {
 				bad("M3:child-not-reconciled-to-its-revision", "%s (content %s, assigned %s after the sync, common changed=%v): request %q, want %q", name, ver(ch.Content), ver(av), cfg.CommonChanged, wroteOrDeleted[name], wantVerb)
 			}
+		}
+	}
+	// M6: a child that the latest revision's answer does not contain is not desired any more, whatever an older
+	// revision's own view says: it is claimed by no revision after the sync, never (re)created or updated, and
+	// deleted if it is still there
+	if c.Ghost > 0 {
+		if v, ok := after["ghost"]; ok {
+			bad("M6:stale-claim-kept", "the revision of %s still claims child ghost, which the latest revision does not desire", ver(v))
+		}
+		switch verb := wroteOrDeleted["ghost"]; {
+		case verb == "create" || verb == "update":
+			bad("M6:undesired-child-written", "child ghost was %sd although the latest revision does not desire it", verb)
+		case c.GhostExists && verb != "delete":
+			bad("M6:undesired-child-kept", "child ghost exists, is not desired by the latest revision and was not deleted (request %q)", verb)
 		}
 	}
 	// M5: the Updated condition
@@ -417,6 +464,16 @@ func TestVerifC07(t *testing.T) {
 									r.Outcome(c07Outcome)
 									if idx%10007 == 0 {
 										r.Sample(c)
+									}
+									if checks == 0 && fp == 0 && !own && n <= 2 {
+										for g := 1; g < latest; g++ {
+											for _, ge := range []bool{false, true} {
+												cg := c
+												cg.Ghost, cg.GhostExists = g, ge
+												r.Case(cg, fmt.Sprint(idx)+fmt.Sprintf("g%d%v", g, ge), func() []mc.Finding { return c07Run(cg) })
+												r.Outcome("ghost:" + c07Outcome)
+											}
+										}
 									}
 								}
 							}
